@@ -5,7 +5,7 @@ D="$1"; TIER="$2"; shift 2
 cd /repo || exit 9
 if [ -n "$(git status --porcelain --untracked-files=no)" ]; then echo "repo dirty"; exit 9; fi
 if ! git apply --check "$D/patch.diff" 2>/dev/null; then
-  if ! git apply -3 "$D/patch.diff" 2>/dev/null; then echo "PATCH DOES NOT APPLY"; git checkout -- . ; exit 8; fi
+  if ! git apply -3 "$D/patch.diff" 2>/dev/null; then echo "PATCH DOES NOT APPLY"; git reset -q --hard HEAD; exit 8; fi
   git reset -q
 else
   git apply "$D/patch.diff"
